@@ -11,6 +11,7 @@ REPO_SRCS = [
     "src/Bandit/Experience.cpp",
     "src/Bandit/Policies/ThompsonSamplingPolicy.cpp",
     "src/Bandit/Policies/TopTwoThompsonSamplingPolicy.cpp",
+    "src/Bandit/Policies/T3CPolicy.cpp",
     "src/MDP/Policies/WoLFPolicy.cpp",
     "src/MDP/Policies/PGAAPPPolicy.cpp",
     "src/Bandit/Policies/ESRLPolicy.cpp",
@@ -30,12 +31,16 @@ ASSUMPTIONS = [
     "Q-values: exact ties or separated by more than the library's checkEqualGeneral tolerance (boolean predicate separatedb, checked by the driver on every case)",
     "std::uniform_real_distribution<double>(0,1) returns values in [0,1); uniform_int_distribution(0,n-1) returns values in [0,n-1]",
     "actions passed to stepUpdateP / getActionProbability are in range (the C++ does not check them)",
+    "values given to unchecked setters are in the documented domain (LRP a,b in [0,1]; WoLF deltas >= 0, scaling > 0; ESRL a in [0,1], window >= 1)",
+    "SuccessiveRejects: budget >= A; n_k compared with the exact ceiling only when the quotient is not within 1e-6 of an integer",
 ]
 RULE = ("cases from props/C09.py gen(): Q-vectors on a k/16 grid of any sign with forced exact ties and shifts by +-1000; "
         "epsilon / temperature / learning-rate grids incl. 0 and 1 and random doubles; LRP histories of 0..25 updates; WoLF and "
         "PGA-APP stepUpdateP histories (PGA-APP: vertex regime with large learning rates, slow regime lRate~0.002 with 60-100 "
-        "updates, random doubles); Thompson / TopTwo on recorded experiences (all-negative rewards included); ESRL, "
-        "SuccessiveRejects, Random at oracle level; non-trivial = ties present or maximiser not at index 0 (greedy), 0<eps<1 "
+        "updates, random doubles); every public setter (setAParam/setBParam, setEpsilon, setTemperature, setDeltaW/L, setScaling, "
+        "setLearningRate, setPredictionLength, ESRL setters) interleaved with the updates, out-of-range values included; "
+        "Thompson / TopTwo / T3C on recorded experiences (all-negative rewards included); ESRL phase machine and "
+        "SuccessiveRejects schedule against their models; Random at oracle level; non-trivial = ties present or maximiser not at index 0 (greedy), 0<eps<1 "
         "(epsilon), at least one update (LRP/WoLF/PGA-APP), T>1e-6 (softmax), all arms explored (Thompson), a phase change "
         "(ESRL/SR); distinct by md5 of the case line")
 THOROUGH_SEEDS = 3
@@ -99,6 +104,19 @@ def gen_gr(rng):
     return "gr %s %s %s %d %d" % (flag, L(q_tokens(vals)), sh, rng.randrange(1 << 30), rng.choice([1, 2, 3]))
 
 
+def gen_esets(rng, eps, flag):
+    """a list of setEpsilon calls applied after construction (values outside [0,1] must throw and
+       change nothing); the constructor value is then only a starting point"""
+    n = rng.choice([0, 0, 1, 2, 3])
+    sets = []
+    for _ in range(n):
+        if rng.random() < 0.7:
+            sets.append(rng.choice(EPS_GRID + ["-1/4", "5/4", "-1", "2"]))
+        else:
+            sets.append(rng.choice([rand_unit(rng), "-0x1p-3", "0x1.8p0"])); flag = "c"
+    return sets, eps, flag
+
+
 def gen_epg(rng):
     A = rng.choice([1, 2, 2, 3, 4, 4, 5, 8])
     vals = gen_q(rng, A)
@@ -107,7 +125,8 @@ def gen_epg(rng):
         flag = "x" if pow2(A) and pow2(ties_of(vals)) else "c"
     else:
         eps = rand_unit(rng); flag = "c"
-    return "epg %s %s %s %d %d" % (flag, L(q_tokens(vals)), eps, rng.randrange(1 << 30), rng.choice([1, 2, 4]))
+    esets, eps, flag = gen_esets(rng, eps, flag)
+    return "epg %s %s %s %s %d %d" % (flag, L(q_tokens(vals)), eps, L(esets), rng.randrange(1 << 30), rng.choice([1, 2, 4]))
 
 
 def gen_mgr(rng):
@@ -122,24 +141,39 @@ def gen_mgr(rng):
     toks = []
     for r in rows:
         toks += q_tokens(r)
-    return "mgr %s %d %d %s %s %d" % (flag, S, A, " ".join(toks), eps, rng.randrange(1 << 30))
+    esets, eps, flag = gen_esets(rng, eps, flag)
+    return "mgr %s %d %d %s %s %s %d" % (flag, S, A, " ".join(toks), eps, L(esets), rng.randrange(1 << 30))
 
 
 def gen_lrp(rng, tier):
+    """LRP histories: stepUpdateP interleaved with setAParam / setBParam; then an EpsilonPolicy around
+       the learned policy receives a list of setEpsilon calls (some outside [0,1], which must throw)."""
     A = rng.choice([2, 2, 3, 4, 4, 5, 7])
     dyadic = rng.random() < 0.6
+    setters = rng.random() < 0.6
     if dyadic:
-        a = rng.choice(AB_GRID); b = rng.choice(AB_GRID + ["0", "0"]); eps = rng.choice(EPS_GRID)
+        val = lambda: rng.choice(AB_GRID)
+        a = val(); b = rng.choice(AB_GRID + ["0", "0"]); eps = rng.choice(EPS_GRID)
         nops = rng.choice([0, 1, 2, 3, 5, 8, 10])
-        flag = "x" if (A == 2 or (b == "0" and pow2(A))) else "c"
     else:
-        a = rand_unit(rng); b = rand_unit(rng); eps = rand_unit(rng)
+        val = lambda: rand_unit(rng)
+        a = val(); b = val(); eps = rand_unit(rng)
         nops = rng.choice([1, 3, 6, 12, 25 if tier != "quick" else 12])
-        flag = "c"
-    ops = []
+    ops = []; bs = [b]
     for _ in range(nops):
-        ops.append("%d %d" % (rng.randrange(A), rng.randrange(2)))
-    return "lrp %s %d %s %s %s %d %s %d %d" % (flag, A, a, b, eps, nops, " ".join(ops), rng.randrange(1 << 30), rng.choice([1, 2, 3]))
+        r = rng.random()
+        if setters and r < 0.15:
+            ops.append("a %s" % val())
+        elif setters and r < 0.35:
+            v = val(); bs.append(v); ops.append("b %s" % v)
+        else:
+            # penalties are what exercises invB/divB: make them as likely as rewards
+            ops.append("u %d %d" % (rng.randrange(A), rng.randrange(2)))
+    flag = "x" if dyadic and (A == 2 or (all(x == "0" for x in bs) and pow2(A))) else "c"
+    esets = [rng.choice(EPS_GRID + ["-1/4", "5/4", "2", "-1"]) if dyadic else rng.choice([rand_unit(rng), "-0x1p-3", "0x1.8p0"])
+             for _ in range(rng.choice([0, 0, 1, 2, 3]))]
+    return "lrp %s %d %s %s %s %d %s %s %d %d" % (flag, A, a, b, eps, nops, " ".join(ops), L(esets),
+                                                 rng.randrange(1 << 30), rng.choice([1, 2, 3]))
 
 
 from fractions import Fraction as Fr
@@ -165,18 +199,26 @@ def regime(vals16, T, sh):
 
 
 def gen_softmax(rng, want):
+    """/repo now subtracts the maximum before exponentiating, so no regime restriction is needed any
+       more: 'smx' = moderate exponents, 'smu' = exponents <= -15 (where the unrepaired code failed).
+       A list of setTemperature calls (negative ones must throw) is applied after construction; the
+       regime is decided by the temperature finally in force."""
     for _ in range(200):
         A = rng.choice([1, 2, 2, 3, 3, 4, 5, 6])
         vals = gen_q(rng, A)
         if want == "under" and rng.random() < 0.7:
             vals = [-abs(v) - rng.choice([16, 240, 320, 1600]) for v in vals]
-        T = rng.choice(T_GRID)
+        T0 = rng.choice(T_GRID)
+        tsets = [rng.choice(T_GRID + ["-1", "-1/8"]) for _ in range(rng.choice([0, 0, 1, 2, 3]))]
+        T = T0
+        for t in tsets:
+            if Fr(t) >= 0: T = t
         sh = rng.choice(["1000", "-1000", "1/4", "-37/8", "0", "2", "-2", "-20", "-100"])
         reg = regime(vals, Fr(T), Fr(sh))
         if reg == want:
-            return "%s c %s %s %s %d %d" % ("smx" if want == "ok" else "smu", T, L(q_tokens(vals)), sh,
-                                            rng.randrange(1 << 30), rng.choice([1, 2, 3]))
-    return "smx c 1 2 0 1/2 0 1 1"
+            return "%s c %s %s %s %s %d %d" % ("smx" if want == "ok" else "smu", T0, L(tsets), L(q_tokens(vals)), sh,
+                                               rng.randrange(1 << 30), rng.choice([1, 2, 3]))
+    return "smx c 1 0 2 0 1/2 0 1 1"
 
 
 def gen_thompson(rng, kind):
@@ -209,6 +251,29 @@ def gen_thompson(rng, kind):
                                      rng.randrange(1 << 30), rng.choice([1, 2, 4]))
 
 
+def gen_t3c(rng):
+    """T3C: per-arm reward sequences (some arms get the very same sequence, or all-higher means, so that
+       exact cost ties and zero costs occur); records are interleaved keeping each arm's own order."""
+    A = rng.choice([2, 3, 3, 4, 5])
+    seqs = []
+    for a in range(A):
+        n = rng.choice([2, 3, 5, 8]) if rng.random() > 0.1 else rng.choice([0, 1])
+        base = rng.randint(8, 24) * rng.choice([1, 1, -1])
+        seqs.append([dy(base * 4 + rng.randint(-12, 12), 16) for _ in range(n)])
+    if A > 2 and rng.random() < 0.5:
+        i, j = rng.sample(range(A), 2)
+        seqs[j] = list(seqs[i])
+    queues = [list(s) for s in seqs]
+    recs = []
+    while any(queues):
+        a = rng.choice([i for i in range(A) if queues[i]])
+        recs.append((a, queues[a].pop(0)))
+    beta = rng.choice(["1/2", "1/4", "3/4", "0", "0", "1"])
+    var = rng.choice(["1", "1/4", "4", "25"])
+    return "t3c %d %d %s %s %s %d %d" % (A, len(recs), " ".join("%d %s" % r for r in recs), beta, var,
+                                        rng.randrange(1 << 30), rng.choice([1, 2, 4]))
+
+
 def gen_wolf(rng, tier):
     S = rng.choice([1, 2, 3])
     A = rng.choice([2, 2, 4, 4, 4, 3, 5, 8])
@@ -222,8 +287,15 @@ def gen_wolf(rng, tier):
         dw = rng.choice(["1/80", "1/16", "1/4", "0", "3/2"]); dl = rng.choice(["1/20", "1/8", "1/2", "1", "3"])
     sc = rng.choice(["5000", "4", "1", "1/2"])
     nops = rng.choice([0, 1, 2, 4, 8, 16 if tier != "quick" else 8])
-    ops = [rng.randrange(S) for _ in range(nops)]
-    return "wolf %d %d %s %s %s %s %s %d" % (S, A, " ".join(toks), dw, dl, sc, L(ops), rng.randrange(1 << 30))
+    setters = rng.random() < 0.5
+    ops = []
+    for _ in range(nops):
+        r = rng.random()
+        if setters and r < 0.12: ops.append("w %s" % rng.choice(["1/80", "1/16", "1/4", "0", "3/2", "1/8"]))
+        elif setters and r < 0.24: ops.append("l %s" % rng.choice(["1/20", "1/8", "1/2", "1", "3"]))
+        elif setters and r < 0.33: ops.append("s %s" % rng.choice(["5000", "4", "1", "1/2", "16"]))
+        else: ops.append("u %d" % rng.randrange(S))
+    return "wolf %d %d %s %s %s %s %d %s %d" % (S, A, " ".join(toks), dw, dl, sc, len(ops), " ".join(ops), rng.randrange(1 << 30))
 
 
 def gen_mpol(rng):
@@ -261,16 +333,31 @@ def gen_pga(rng, tier):
         lr = float(rng.random() * rng.choice([0.01, 0.1, 1.0])).hex(); pl = float(rng.random() * 4).hex()
         nops = rng.choice([1, 4, 10, 20])
         ops = [rng.randrange(S) for _ in range(nops)]
-    return "pga %d %d %s %s %s %s %d" % (S, A, " ".join(toks), lr, pl, L(ops), rng.randrange(1 << 30))
+    toks_ops = []
+    setters = rng.random() < 0.4
+    for s_ in ops:
+        r = rng.random()
+        if setters and r < 0.06: toks_ops.append("r %s" % rng.choice(["1/10", "1/4", "1/2", "1/512", "-1/4", "0"]))
+        elif setters and r < 0.12: toks_ops.append("p %s" % rng.choice(["0", "1/2", "1", "3", "-1", "1/4"]))
+        toks_ops.append("u %d" % s_)
+    return "pga %d %d %s %s %s %d %s %d" % (S, A, " ".join(toks), lr, pl, len(toks_ops), " ".join(toks_ops), rng.randrange(1 << 30))
 
 
 def gen_esrl(rng):
     A = rng.choice([2, 3, 4, 5])
     a = rng.choice(AB_GRID + [rand_unit(rng)])
-    N = rng.choice([1, 2, 3, 5]); phases = rng.choice([1, 2, 3, A, A + 2]); window = rng.choice([1, 2, 5])
+    N = rng.choice([1, 2, 3, 5]); phases = rng.choice([1, 2, 3, A, A + 2]); window = rng.choice([1, 2, 4])
     nops = rng.choice([3, 8, 15, 30])
-    ops = " ".join("%d %d" % (rng.randrange(A), rng.randrange(2)) for _ in range(nops))
-    return "esrl %d %s %d %d %d %d %s %d" % (A, a, N, phases, window, nops, ops, rng.randrange(1 << 30))
+    setters = rng.random() < 0.5
+    ops = []
+    for _ in range(nops):
+        r = rng.random()
+        if setters and r < 0.08: ops.append("a %s" % rng.choice(AB_GRID))
+        elif setters and r < 0.14: ops.append("t %d" % rng.choice([1, 2, 4]))
+        elif setters and r < 0.20: ops.append("e %d" % rng.choice([0, 1, 2, A + 1]))
+        elif setters and r < 0.25: ops.append("w %d" % rng.choice([1, 2, 8]))
+        else: ops.append("u %d %d" % (rng.randrange(A), rng.randrange(2)))
+    return "esrl %d %s %d %d %d %d %s %d" % (A, a, N, phases, window, nops, " ".join(ops), rng.randrange(1 << 30))
 
 
 def gen_sr(rng):
@@ -289,7 +376,7 @@ def gen(rng, tier):
     n = {"quick": 900, "thorough": 4500, "search": 1500}[tier]
     out = []
     for _ in range(n):
-        k = rng.choice(["gr", "gr", "epg", "mgr", "lrp", "lrp", "smx", "smx", "smu", "ts", "tsn", "tt", "ttn", "wolf", "wolf", "mpol", "pga", "pga", "pga", "esrl", "sr", "rnd"])
+        k = rng.choice(["gr", "gr", "epg", "mgr", "lrp", "lrp", "smx", "smx", "smu", "ts", "tsn", "tt", "ttn", "wolf", "wolf", "mpol", "pga", "pga", "pga", "esrl", "sr", "rnd", "t3c"])
         if k == "gr": out.append(gen_gr(rng))
         elif k == "epg": out.append(gen_epg(rng))
         elif k == "mgr": out.append(gen_mgr(rng))
@@ -302,5 +389,6 @@ def gen(rng, tier):
         elif k == "esrl": out.append(gen_esrl(rng))
         elif k == "sr": out.append(gen_sr(rng))
         elif k == "rnd": out.append(gen_rnd(rng))
+        elif k == "t3c": out.append(gen_t3c(rng))
         else: out.append(gen_thompson(rng, k))
     return [" ".join(c.split()) for c in out]
